@@ -1,6 +1,7 @@
 import NutilsVerif.Core.Proto
 import NutilsVerif.Model.C17
 import NutilsVerif.Model.C17.Intern
+import NutilsVerif.Model.C17.Kw
 /-!
 # C17 — wire format of the driver: parser for `Value`, decision procedure for `Equiv`, request handler
 (kept in a library module so that the driver script itself elaborates instantly)
@@ -209,6 +210,12 @@ def parseKw (s : String) : Option (String × Int) :=
   | [n, d] => d.toInt?.map fun d => (n, d)
   | _ => none
 
+/-- `x<hex of the utf-8 name>=<int>` -/
+def parseKwItem (s : String) : Option (Bytes × Int) :=
+  match s.splitOn "=" with
+  | [n, d] => do let n ← xbytes n; let d ← d.toInt?; pure (n, d)
+  | _ => none
+
 def bindErrName : BindErr → String
   | .tooMany => "tooMany" | .multiple => "multiple" | .missing => "missing" | .unexpected => "unexpected"
 
@@ -267,6 +274,22 @@ def handle (line : String) : String :=
         | some out => s!"ok|{hex out.flatten}"
         | none => "err|ValueError"
     | _, _ => "bad-request"
+  | ["canonbo", sg, bo, w, items] =>
+    match w.toNat?, (words items).mapM unhex with
+    | some w, some items =>
+      if sg != "s" && sg != "u" then "bad-request"
+      else if bo != "<" && bo != ">" then "bad-request"
+      else if items.any (fun b => b.length != w) then "bad-request"
+      else match canonIntsBO (bo == ">") (sg == "s") w items with
+        | some out => s!"ok|{hex out.flatten}"
+        | none => "err|ValueError"
+    | _, _ => "bad-request"
+  | ["kwcanon", kw] =>
+    match (words kw).mapM parseKwItem with
+    | some kw =>
+      if !(kw.map (·.1)).Nodup then "bad-request"
+      else s!"ok|{" ".intercalate ((kwCanon kw).map fun i => s!"x{hex i.1}={i.2}")}"
+    | none => "bad-request"
   | _ => "bad-request"
 
 
